@@ -4,13 +4,14 @@ import (
 	"bufio"
 	"fmt"
 	"net/http"
+	"sync/atomic"
 
 	"github.com/Cloud-Foundations/Dominator/lib/html"
 )
 
 type adminDashboardType struct {
 	htmlWriter html.HtmlWriter
-	ready      bool
+	ready      atomic.Bool // Set by main(), read by concurrent requests.
 	publicLogs bool
 }
 
@@ -37,7 +38,7 @@ func (dashboard *adminDashboardType) ServeHTTP(w http.ResponseWriter,
 	fmt.Fprintln(writer, "</center>")
 	html.WriteHeaderWithRequest(writer, req)
 	fmt.Fprintln(writer, "<h3>")
-	if dashboard.ready {
+	if dashboard.ready.Load() {
 		fmt.Fprintln(writer,
 			`Keymaster is <font color="green">ready</font><br>`)
 	} else {
@@ -61,5 +62,5 @@ func (dashboard *adminDashboardType) ServeHTTP(w http.ResponseWriter,
 }
 
 func (dashboard *adminDashboardType) setReady() {
-	dashboard.ready = true
+	dashboard.ready.Store(true)
 }
